@@ -457,21 +457,23 @@ _TAILS = [[["commit"], ["reopen"], ["revert"]],
 
 def cases(rng, tier):
     mids = _structured()
-    # (1) one structural op, every tail (thorough) / a sample (quick)
-    combos = [(m, t) for m in mids for t in _TAILS]
+    # (1) every single structural op (exhaustive over sources and targets); quick: one tail each, in rotation;
+    #     thorough: every tail
     if tier == "quick":
-        combos = rng.sample(combos, 40)
+        combos = [(m, _TAILS[i % len(_TAILS)]) for i, m in enumerate(mids)]
+    else:
+        combos = [(m, t) for m in mids for t in _TAILS]
     for fmt in ("bzr", "git"):
         for m, t in combos:
             yield {"fmt": fmt, "ops": _PRELUDE + m + t}
     # (2) two interacting structural ops (rename into a removed directory, re-add after remove, ...)
-    npairs = 30 if tier == "quick" else 600
+    npairs = 10 if tier == "quick" else 120
     for _ in range(npairs):
         m1, m2 = rng.choice(mids), rng.choice(mids)
         for fmt in ("bzr", "git"):
             yield {"fmt": fmt, "ops": _PRELUDE + m1 + m2 + rng.choice(_TAILS)}
     # (3) random sequences steered by the mirror
-    n = 30 if tier == "quick" else 1200
+    n = 15 if tier == "quick" else 120
     for i in range(n):
         for fmt in ("bzr", "git"):
             names = NAMES[: rng.choice([3, 4, 4, 6])]
